@@ -27,6 +27,9 @@ type netRun struct {
 	ns    *netSim
 	nodes []*netNode
 	prop  string
+	// C23, small-limits profile: the scripted peer that announces hash lists, and the node it talks to
+	hashPeer     *chaosPeer
+	hashPeerNode *netNode
 	// C23
 	lastGetB map[*link]daemon.GetBlocksMessage // last GETB delivered to the owner of the link
 	lastGetT map[*link][]cipher.SHA256
@@ -40,12 +43,23 @@ type netRun struct {
 func runNetwork(c *sim.Ctx) {
 	t := c.T
 	followers := 1 + t.Int("net-followers", 2)
-	w := newWorld(c, followers, worldOpts{hugeWeight: 0})
+	// C23: in a third of the runs the size limits sit at their legal minimum, which makes outgoing-length limits of
+	// 1.2-9 KB legal: only there do the hash-list messages (at most 256 hashes, 8.2 KB) need truncation
+	small := c.Property == "C23" && t.Chance("small-limits", 1, 3)
+	w := newWorld(c, followers, worldOpts{hugeWeight: 0, smallSizes: small})
 	defer w.closeAll()
 	r := &netRun{c: c, w: w, prop: c.Property, lastGetB: map[*link]daemon.GetBlocksMessage{}, lastGetT: map[*link][]cipher.SHA256{},
 		honestTxn: map[model.Hash]bool{}, pubBlocks: map[uint64]model.Block{}}
 	r.ns = newNetSim(c, w)
 	r.ns.drawKnobs(true)
+	if small {
+		// any length from the legal minimum up to where 256 hashes fit, every residue modulo the hash size
+		minLen := uint64(4+4+(4+8+8+8+32+32+32+4+65)) + uint64(w.mcfg.MaxBlockSize)
+		r.ns.knobs.maxOutgoingMsgLen = minLen + uint64(t.Int("small-max-out-len", 7400))
+		r.ns.knobs.maxTxnAnnounce = []int{16, 64, 256}[t.Int("small-txn-announce", 3)]
+		c.Knobs["max_out_len"] = int64(r.ns.knobs.maxOutgoingMsgLen)
+		c.Count("mode.small_limits")
+	}
 	defer r.ns.shutdown()
 	for i, n := range w.nodes {
 		r.nodes = append(r.nodes, r.ns.addDaemon(n, fmt.Sprintf("10.0.0.%d", i+1), 6000, uint32(0x100+i)))
@@ -68,6 +82,18 @@ func runNetwork(c *sim.Ctx) {
 		}
 		r.ns.pump()
 		r.drainAll()
+	}
+	if small {
+		// a scripted peer that announces long lists of transaction hashes nobody has: the node asks for them
+		target := r.nodes[t.Int("hash-peer-target", len(r.nodes))]
+		cp, err := r.ns.newChaos(target, "hashpeer", "10.0.9.1:7000")
+		if err != nil {
+			sim.Harnessf("attach hash peer: %v", err)
+		}
+		r.ns.pump()
+		r.ns.deliver(cp.l, r.ns.introFrame(0x9001, 7000, 2, w.pubKey.pub, nil), nil)
+		r.ns.pump()
+		r.hashPeer, r.hashPeerNode = cp, target
 	}
 	steps := t.Range("net-steps", 20, 90)
 	c.Sample = append(c.Sample, fmt.Sprintf("%d real nodes, max outgoing length %d, response cap %d, %d events", len(r.nodes), r.ns.knobs.maxOutgoingMsgLen, r.ns.knobs.maxGetBlocksResp, steps))
@@ -168,9 +194,105 @@ func (r *netRun) deliverOne(faults bool) bool {
 	return true
 }
 
+// announceHashes: the scripted peer announces n hashes (mostly unknown to the node) and the node's GETT answer is
+// compared with the longest prefix of the unknown ones that fits the limit.
+func (r *netRun) announceHashes() {
+	c := r.c
+	t := c.T
+	cp, n := r.hashPeer, r.hashPeerNode
+	if cp == nil || cp.l.dead {
+		return
+	}
+	cnt := []int{3, 30, 40, 100, 255, 256}[t.Pick("hash-count", 1, 2, 2, 2, 1, 2)]
+	hs := make([]cipher.SHA256, cnt)
+	for i := range hs {
+		copy(hs[i][:], t.Bytes("hash", 32))
+		hs[i][0] |= 1 // never the zero hash
+	}
+	// some the node already has in its pool: those are not asked for
+	var known []cipher.SHA256
+	for _, h := range n.m.PoolHashes() {
+		known = append(known, cipher.SHA256(h))
+	}
+	isKnown := map[cipher.SHA256]bool{}
+	for i := 0; i < len(known) && i < 3; i++ {
+		k := t.Int("known-at", cnt)
+		hs[k] = known[i]
+		isKnown[known[i]] = true
+	}
+	before := len(cp.received)
+	m := daemon.NewAnnounceTxnsMessage(hs, 1<<20)
+	r.ns.deliver(cp.l, frame("ANNT", body(m)), nil)
+	r.ns.pump()
+	c.Count("fault.hash_list_announced")
+	c.Kind(9, true)
+	c.Logf("hash peer announces %d hashes (%d known) to node %d", cnt, len(isKnown), n.id)
+	max := r.ns.knobs.maxOutgoingMsgLen
+	fit := uint64(0)
+	if max >= 8 {
+		fit = (max - 8) / 32 // id (4) + count (4) + 32 n <= max
+	}
+	if fit > 256 {
+		fit = 256
+	}
+	for _, f := range cp.received[before:] {
+		p, b, ok := parseFrame(f)
+		if !ok || p != "GETT" {
+			continue
+		}
+		var g daemon.GetTxnsMessage
+		if _, err := g.Decode(b); err != nil {
+			c.Violate("malformed-frame-sent", "GETT", "node %d sent an undecodable GETT: %v", n.id, err)
+			return
+		}
+		// The request must be the longest fitting prefix of the announced hashes the node does not have.  Which of the
+		// planted pool hashes the node really has is its own business (its pool may lag the shadow model), so: the
+		// request is a subsequence of the announcement that skips planted hashes only, it is never longer than what
+		// fits, and if it is shorter than what fits nothing but planted hashes may follow its last element.
+		if uint64(len(g.Transactions)) > fit {
+			c.Violate("not-longest-fitting-prefix", "GETT:more", "node %d asked for %d hashes; at most %d fit %d bytes (cap 256)", n.id, len(g.Transactions), fit, max)
+			return
+		}
+		pos := 0
+		for i, want := range g.Transactions {
+			for pos < len(hs) && hs[pos] != want {
+				if !isKnown[hs[pos]] {
+					c.Violate("not-longest-fitting-prefix", "GETT:not-a-prefix", "node %d's GETT skips announced hash number %d, which it cannot have, before its element %d", n.id, pos, i)
+					return
+				}
+				pos++
+			}
+			if pos == len(hs) {
+				c.Violate("not-longest-fitting-prefix", "GETT:not-a-prefix", "node %d's GETT element %d is not among the announced hashes (in order)", n.id, i)
+				return
+			}
+			pos++
+		}
+		if uint64(len(g.Transactions)) < fit {
+			for ; pos < len(hs); pos++ {
+				if !isKnown[hs[pos]] {
+					c.Violate("not-longest-fitting-prefix", "GETT:fewer", "node %d asked for %d hashes although %d fit %d bytes and announced hash number %d, which it cannot have, was left out", n.id, len(g.Transactions), fit, max, pos)
+					return
+				}
+			}
+		} else if len(hs)-len(isKnown) > len(g.Transactions) {
+			c.Count("probe.gett_truncated_by_length")
+		}
+		c.Count("probe.gett_prefix_checked")
+		return
+	}
+	if !cp.l.dead {
+		c.Count("probe.gett_missing")
+	}
+}
+
 func (r *netRun) step() {
 	c := r.c
 	t := c.T
+	if r.hashPeer != nil && t.Chance("hash-peer-op", 1, 5) {
+		r.announceHashes()
+		return
+	}
 	switch t.Pick("net-op", 10, 6, 3, 3, 2, 2) {
 	case 0:
 		if !r.deliverOne(true) {
